@@ -196,7 +196,13 @@ def Mod.serialize (o c : Char) (plus : Bool) (m : Mod) : List Char :=
   if m.mult > 1 then o :: (m.val.shown plus ++ c :: '^' :: intText m.mult)
   else o :: (m.val.shown plus ++ [c])
 
-def serializeMods (o c : Char) (plus : Bool) (l : List Mod) : List Char :=
-  l.flatMap (Mod.serialize o c plus)
+/-- Which positive numbers are written with an explicit `+`. Python's `include_plus` is the constant function
+`constPlus b`; the round-trip theorems hold for an arbitrary choice per modification (mixed spellings in one string). -/
+abbrev Plus := Mod → Bool
+
+def constPlus (b : Bool) : Plus := fun _ => b
+
+def serializeMods (o c : Char) (plus : Plus) (l : List Mod) : List Char :=
+  l.flatMap (fun m => Mod.serialize o c (plus m) m)
 
 end Pept
